@@ -17,9 +17,11 @@ ANY_MACROS = f"{REPO}/tests/macros/jasm_macros.yaml"
 
 # property -> list of (universe key in the export, options)
 PLAN = {
-    "C01": dict(export="Export_C01", parts=[(None, dict(flags=ALL4, spellings=[{}, {"ints": True}]))],   # ints differ only in the thorough universe
+    "C01": dict(export="Export_C01", parts=[("m", dict(flags=ALL4, spellings=[{}, {"ints": True}])),   # ints differ only in the thorough universe
+                                            ("c", dict(flags=ALL4))],
                 mc=[("MC_C01", {"quick": "MC_C01_quick.cfg", "thorough": "MC_C01_thorough.cfg"})]),
-    "C02": dict(export="Export_C02", parts=[(None, dict(flags=FF, spellings=[{"times": "body"}, {"times": "sib"}]))],
+    "C02": dict(export="Export_C02", parts=[("m", dict(flags=FF, spellings=[{"times": "body"}, {"times": "sib"}])),
+                                            ("f", dict(flags=[(True, False), (True, True)], spellings=[{"times": "body"}, {"times": "sib"}]))],
                 mc=[("MC_Compile", {"quick": "MC_Compile_times_quick.cfg", "thorough": "MC_Compile_times_thorough.cfg"}), ("MC_Compile", {"quick": "MC_Compile_control.cfg", "thorough": "MC_Compile_control.cfg"}, "must_fail"), ("MC_C02", {"quick": "MC_C02_quick.cfg", "thorough": "MC_C02_thorough.cfg"})]),
     "C03": dict(export="Export_C03", parts=[("i", dict(flags=FF)), ("o", dict(flags=[(False, False), (False, True)])),
                                             ("d", dict(flags=ALL4))],
@@ -29,19 +31,21 @@ PLAN = {
     "C05": dict(export="Export_C05", parts=[("i", dict(flags=[(False, False), (True, True)])),
                                             ("o", dict(flags=[(False, False), (True, True)])),
                                             ("r", dict(flags=FF, spellings=[{}, {"upper_suffix": True}])),
-                                            ("d", dict(flags=FF))],
+                                            ("d", dict(flags=FF, spellings=[{}, {"ints": True}]))],
                 mc=[("MC_Compile", {"quick": "MC_Compile_caps_quick.cfg", "thorough": "MC_Compile_caps_thorough.cfg"}), ("MC_Compile", {"quick": "MC_Compile_regs_quick.cfg", "thorough": "MC_Compile_regs_thorough.cfg"}), ("MC_C05", {"quick": "MC_C05_quick.cfg", "thorough": "MC_C05_thorough.cfg"})]),
     "C06": dict(export="Export_C06", parts=[(None, dict(flags=[(False, False), (True, True)], spellings=[{}, {"ints": True}]))],
                 mc=[("MC_Compile", {"quick": "MC_Compile_deref_quick.cfg", "thorough": "MC_Compile_deref_thorough.cfg"}), ("MC_C06", {"quick": "MC_C06_quick.cfg", "thorough": "MC_C06_thorough.cfg"})]),
     "C18": dict(export="Export_C18", parts=[(None, dict(flags=FF))],
                 mc=[("MC_C18", {"quick": "MC_C18_quick.cfg", "thorough": "MC_C18_thorough.cfg"})]),
     "C07": dict(export="Export_C07", parts=[("p", dict(flags=[(False, False), (True, True)])),
-                                            ("a", dict(flags=[(False, False), (False, True)], macros=[ANY_MACROS]))],
+                                            ("a", dict(flags=[(False, False), (False, True)], macros=[ANY_MACROS])),
+                                            ("t", dict(flags=FF))],
                 mc=[("MC_Scan", {"quick": "MC_Scan.cfg", "thorough": "MC_Scan_thorough.cfg"})]),
     "C11": dict(export="Export_C11", parts=[(None, dict(flags=FF))],
                 mc=[("MC_Scan", {"quick": "MC_Scan.cfg", "thorough": "MC_Scan_thorough.cfg"})]),
     "C12": dict(export="Export_C12", parts=[("m", dict(flags=[(False, False), (True, False)], fresh=True)),
-                                            ("n", dict(flags=FF, fresh=True, modes_only=True))],
+                                            ("n", dict(flags=FF, fresh=True, modes_only=True)),
+                                            ("m", dict(flags=FF, fresh="batch", label="batch"))],
                 mc=[("MC_Scan", {"quick": "MC_Scan.cfg", "thorough": "MC_Scan_thorough.cfg"})]),
 }
 
@@ -94,7 +98,7 @@ def run_part(report, prop, key, u, opts, tier):
         report.notes.append(f"part {key or 'main'}: {len(pairs)} of {len(job_rules) * len(job_listings)} cases sampled (seed {seed()})")
         report.cov["sampled"] = True
     obs = matchpipe.drive({"rules": job_rules, "listings": job_listings, "pairs": pairs, "want_regex": True,
-                           "fresh": bool(opts.get("fresh"))}, tag=f"{prop}{key or ''}")
+                           "fresh": opts.get("fresh", False)}, tag=f"{prop}{key or ''}{opts.get('label', '')}")
     # binding of the compile-scheme model (JasmCompile): does the real compiler emit the text the model predicts?
     # (never a violation: a harmless refactoring of the emitted text only shows up here as drift)
     seen_rule, same, drift = set(), 0, []
@@ -128,6 +132,9 @@ def run_part(report, prop, key, u, opts, tier):
         if opts.get("rand"):
             for c in cases:
                 c["rand"] = True
+        if opts.get("nostream"):       # listings of thousands of instructions: the stream is validated by C08/C10
+            for c in cases:
+                c["nostream"] = True
         verdicts = matchpipe.validate(pats, lsts, cases, report, f"{prop}{key or ''}")
     report.cov["evaluations"] += len(cases)
     report.cov["traces_validated_against_impl"] += len(cases)
@@ -228,6 +235,10 @@ def run(prop, tier):
     for key, opts in plan["parts"]:
         u = U if key is None else U[key]
         run_part(report, prop, key, u, opts, tier)
+    if prop in ("C01", "C11", "C12"):
+        # long listings with occurrences across the powers of two of the instruction count (spec/U_Scale.tla)
+        US = matchpipe.export_universe("Export_Scale", f"Export_Scale_{tier}.cfg", report)
+        run_part(report, prop, "scale", US["a" if prop == "C01" else "b"], dict(flags=FF, nostream=True, no_unparse_check=True), tier)
     if prop in gen.FEATURES:
         # code -> spec: seeded random patterns / listings, larger and deeper than the exhaustive universes
         n_p, n_l = (150, 40) if tier == "quick" else (2500, 200)
